@@ -298,6 +298,70 @@ def summarize_dynamic(runs, tb):
 
 
 # ------------------------------------------------------------------------------------------- main
+def cross_validate(tb, thorough):
+    """the static lock-order table against the lock-order pairs observed on the real code: the sources are instrumented
+    (tools/instrument: every Lock / RLock / Unlock / RUnlock reports to the scheduler package, which knows what every
+    goroutine holds), harness/c09 is built against them and put under load with real threads, harness/l3v explores one race;
+    every pair (class held, class acquired) observed must be an edge of the static table, every site observed must be a
+    site the static analysis knows.  -> dict"""
+    from . import c01conc, c13conc
+    res = {"done": False}
+    if not tb or not tb.get("sites"):
+        res["why"] = "the static tables carry no site list"; return res
+    try:
+        with C.Lock("build"):
+            ok, what, paths = c01conc.build()
+            if not ok:
+                res["why"] = "instrumented build: " + what[-300:]; return res
+            hdir = C.harness_dir()
+            lo = os.path.join(wdir(), "c09lockorder" + C.RTAG)
+            rcb, outb = C.sh(["go", "build", "-tags", "verif,lockorder", "-overlay", paths["overlay"], "-o", lo, "./c09"], cwd=hdir, env=C.GOENV, timeout=1800)
+            if rcb != 0:
+                res["why"] = "harness/c09 does not build against the instrumented sources: " + outb[-400:]; return res
+    except RuntimeError as e:
+        res["why"] = str(e)[-300:]; return res
+    ep1, ep2 = os.path.join(wdir(), "edges-load%s.txt" % C.RTAG), os.path.join(wdir(), "edges-l3v%s.txt" % C.RTAG)
+    for p in (ep1, ep2):
+        try: os.remove(p)
+        except OSError: pass
+    secs = "30" if thorough else "6"
+    rc1, out1 = C.sh([lo, "-seed", str(C.seed()), "-seconds", secs, "-rounds", "3", "-out", os.path.join(wdir(), "lockorder-report%s.json" % C.RTAG)],
+                     env=dict(os.environ, VERIF_EDGES=ep1), timeout=600)
+    name, progs, setup, conn, _ = c13conc.SCENARIOS[0]
+    try:
+        with C.Lock("run-C01conc"):
+            c01conc.run_l3v(paths, progs, setup, ["-explore", "-bound", "1", "-max", "2000", "-edges", ep2], timeout=1200)
+    except RuntimeError as e:
+        res["l3v"] = str(e)[-200:]
+    pairs = {}
+    for p in (ep1, ep2):
+        if os.path.exists(p):
+            for line in open(p):
+                f = line.split()
+                if len(f) == 3:
+                    pairs[(f[0], f[1])] = pairs.get((f[0], f[1]), 0) + int(f[2])
+    cls = {}
+    for st in tb["sites"]:
+        cls.setdefault(st["pos"], set()).add(st["class"])
+    static = {(e["from"], e["to"]) for e in tb.get("edges", [])}
+    unknown_sites = sorted({x for pr in pairs for x in pr if x not in cls})
+    dyn, missing = {}, []
+    for (a, b), n in sorted(pairs.items()):
+        if a not in cls or b not in cls:
+            continue
+        cands = [(ca, cb) for ca in cls[a] for cb in cls[b]]
+        hit = [c for c in cands if c in static]
+        for c in (hit or cands[:1]):
+            dyn[c] = dyn.get(c, 0) + n
+        if not hit:
+            missing.append({"held_site": a, "acquired_site": b, "classes": ["%s -> %s" % c for c in cands], "count": n})
+    res.update({"done": True, "load": out1.strip().splitlines()[-1][:300] if out1.strip() else "", "load_rc": rc1,
+                "site_pairs_observed": len(pairs), "class_edges_observed": sorted("%s -> %s (%d)" % (a, b, n) for (a, b), n in dyn.items()),
+                "static_edges": len(static), "static_edges_observed": len([e for e in static if e in dyn]),
+                "observed_edges_missing_from_static_table": missing, "observed_sites_unknown_to_static_analysis": unknown_sites,
+                "note": "static edges whose locks live outside the instrumented packages (hagall-common scheduler) or are sync.Once cannot be observed"})
+    return res
+
 def run(tier, replay):
     t0 = time.time()
     seed = C.seed()
@@ -386,6 +450,15 @@ def run(tier, replay):
     for f in real[:20]:
         print("  FINDING %s: %s" % (f["kind"], f["what"][:300]))
 
+    # ---- 2b. cross-validation of the static lock-order table (the translator is trusted base: this checks it)
+    xv = {"done": False, "why": "replay"} if replay else cross_validate(tb, thorough)
+    xv_bad = xv.get("done") and (xv["observed_edges_missing_from_static_table"] or xv["observed_sites_unknown_to_static_analysis"])
+    if xv.get("done"):
+        print("lock-order cross-validation: %d site pairs observed, %d of %d static edges observed, %d observed edge(s) missing from the static table, %d unknown site(s)" % (
+            xv["site_pairs_observed"], xv["static_edges_observed"], xv["static_edges"], len(xv["observed_edges_missing_from_static_table"]), len(xv["observed_sites_unknown_to_static_analysis"])))
+    else:
+        print("lock-order cross-validation not done: " + str(xv.get("why")))
+
     # ---- 3. verdict
     rc = 0
     violations = []
@@ -415,8 +488,9 @@ def run(tier, replay):
         C.violation(PID, rp)
         violations = [{"kind": x["kind"], "what": x["what"][:400]} for x in unknown]
         rc = 1
-    elif failed or proofs_broken or not okH or (tb is None):
-        what = failed or (["Properties/C09.v"] if proofs_broken else ["harness/c09 build"])
+    elif failed or proofs_broken or not okH or (tb is None) or xv_bad:
+        what = failed or (["Properties/C09.v"] if proofs_broken else (["harness/c09 build"] if (not okH or tb is None) else
+                ["tools/locktables: the static lock-order table misses what the real code does: " + json.dumps((xv["observed_edges_missing_from_static_table"] or xv["observed_sites_unknown_to_static_analysis"])[:3])]))
         rp = C.write_replay(PID, "unchecked-seed%d.json" % seed, {
             "unchecked": ["Properties/C09.v:" + w for w in what], "reasons": static_reasons[:60],
             "coq_log": (info["log"][-1500:] if proofs_broken else ""), "harness_log": (logH[-1500:] if not okH else ""),
@@ -466,7 +540,7 @@ def run(tier, replay):
         "dynamic": {k: stats[k] for k in ("requests", "connections", "max_concurrent_connections", "load_seconds", "sessions", "barriers", "reconnects", "race_reports_total", "race_reports_hagall")},
         "init_storm": {"trials": sum((r["report"] or {}).get("init_trials", 0) for r in runs), "overlapping": sum((r["report"] or {}).get("init_overlaps", 0) for r in runs)},
         "coqchk": chk,
-        "cross_validation_of_static_tables": "not implemented (dynamic lock-order edges are not recorded); the race detector runs validate the lockset table only on executed paths",
+        "cross_validation_of_static_tables": xv,
     }
     assumptions = ["clients keep reading what they are sent", "at most schedulerQueueSize (256) unprocessed requests per connection",
                    "the translator's tables are faithful (trusted, fail-closed)", "lock class = lock instance abstraction (see trusted_base)"]
